@@ -76,7 +76,8 @@ def handleEngine (sc : Option Schema) (id : String) (xs : List Sx) : String :=
     | some sc => if wtv sc file.tree && nf file.tree then "1" else "0"
     | none => "?"
   let mss := match ms with | some k => toString k | none => "?"
-  let extra := s!"(touched {tds}) (missed {mss}) (typed {typed})"
+  let kd := if changes.all (fun c => let ks := collectDots (sidePattern c c.minus); ks.all (fun k => ks.count k == 1)) then "1" else "0"
+  let extra := s!"(touched {tds}) (missed {mss}) (typed {typed}) (keysdistinct {kd})"
   match e with
   | some e => s!"(res {id} (trace {" ".intercalate tr}) {extra} {errStr e})"
   | none => s!"(res {id} (trace {" ".intercalate tr}) {extra} (ok) {canonFile f})"
